@@ -17,12 +17,12 @@ import (
 type Form int
 
 const (
-	Built      Form = iota // Add/AddMany/AddRange (+RunOptimize when any run chunk is requested)
-	Read                   // spec-encoded bytes through ReadFrom (owned containers, exact kinds)
-	Buffer                 // FromBuffer (zero-copy, every chunk flagged shared)
-	Unsafe                 // FromUnsafeBytes
-	Frozen                 // FrozenView over spec-encoded frozen bytes
-	CowShared              // Read + SetCopyOnWrite(true) + a kept Clone (both sides share every chunk)
+	Built     Form = iota // Add/AddMany/AddRange (+RunOptimize when any run chunk is requested)
+	Read                  // spec-encoded bytes through ReadFrom (owned containers, exact kinds)
+	Buffer                // FromBuffer (zero-copy, every chunk flagged shared)
+	Unsafe                // FromUnsafeBytes
+	Frozen                // FrozenView over spec-encoded frozen bytes
+	CowShared             // Read + SetCopyOnWrite(true) + a kept Clone (both sides share every chunk)
 	NForms
 )
 
